@@ -50,6 +50,8 @@ type Report struct {
 	order    []string
 	start    time.Time
 	Extra    map[string]any
+	// NoWrite: do not touch evidence/violation files (used by the all-properties dry run of the matrix tools)
+	NoWrite bool
 }
 
 func NewReport(prop, tier string) *Report {
@@ -224,8 +226,10 @@ func (r *Report) Finish(verifDir string, w *World, explanation string, notDecide
 	}
 	ev := Evidence{PropertyID: r.Property, Tier: r.Tier, Seed: seed, Level: "other", Coverage: cov, Assumptions: assumptions, WallS: time.Since(r.start).Seconds(), Violations: len(bad)}
 	evdir := filepath.Join(verifDir, "evidence")
-	_ = os.MkdirAll(evdir, 0o755)
-	writeJSON(filepath.Join(evdir, r.Property+".json"), ev)
+	if !r.NoWrite {
+		_ = os.MkdirAll(evdir, 0o755)
+		writeJSON(filepath.Join(evdir, r.Property+".json"), ev)
+	}
 
 	for _, o := range r.Obs {
 		if o.Known {
@@ -236,10 +240,14 @@ func (r *Report) Finish(verifDir string, w *World, explanation string, notDecide
 		r.Property, r.Tier, len(r.Obs), discharged, countKnown(r.Obs), len(bad), len(r.order), time.Since(r.start).Seconds())
 	vfile := filepath.Join(evdir, r.Property+".violations.json")
 	if len(bad) == 0 {
-		_ = os.Remove(vfile)
+		if !r.NoWrite {
+			_ = os.Remove(vfile)
+		}
 		return 0
 	}
-	writeJSON(vfile, bad)
+	if !r.NoWrite {
+		writeJSON(vfile, bad)
+	}
 	for _, o := range bad {
 		fmt.Printf("  %s %s [%s] %s: %s\n", strings.ToUpper(o.Status), o.Rule, o.Key, o.Pos, oneLine(o.Detail))
 	}
